@@ -20,7 +20,7 @@ Not decided: associativity / commutativity as identities over arbitrary maps (en
 C02's finding), the round trip through Vec<AssetExpr>.
 """
 from .. import mir
-from ..common import is_derive, site_in_derive
+from ..common import is_derive, site_in_derive, with_closures
 from ..engine import Result, ok, finding, assumption, where
 from ..facts import BrokenCheck
 
@@ -530,6 +530,65 @@ def i_pointwise(F, res):
 _KEEP = []
 
 
+def order_home(F, res):
+    """C-HOME: the entry-wise order on asset values is decided in one place.  Outside model/assets.rs no function of the
+    workspace walks the entries of a CanonicalAssets *and* compares two amounts with each other (a comparison of two non-literal
+    i128 operands in that function or in the closures it hands to the iterator; sign tests against a literal are fine): a containment / spare test re-implemented at a call site is not covered by C-ORDER, and
+    the obvious re-implementations get the absent-entry case wrong (the difference of two values has no entry for a class that
+    cancels exactly).  Walking the entries to render or convert them is fine."""
+    n = 0
+    bad = []
+    for p, f in sorted(F.fns.items()):
+        if not f["crate"].startswith("tx3") or f.get("derived") or f["file"].endswith("model/assets.rs") or f["def_kind"] == "Closure":
+            continue
+        sites = []
+        for b in with_closures(F, f):
+            for bi, t in mir.calls(b):
+                c = t.get("resolved") or t.get("callee") or ""
+                last = c.split("::")[-1]
+                if c == "<%s as std::ops::Deref>::deref" % CA:
+                    # the map itself, borrowed through Deref: an iteration over it follows in this body
+                    if any((t2.get("callee") or "").split("::")[-1] in ("iter", "values", "keys", "into_iter") and "HashMap" in (t2.get("callee") or "") + " ".join(t2.get("gargs") or []) for _, t2 in mir.calls(b)):
+                        sites.append((b, t))
+                    continue
+                if last not in ("iter", "into_iter", "values", "iter_mut", "keys") or not t["args"]:
+                    continue
+                pl = mir.op_place(t["args"][0])
+                ty = b["locals"][pl["l"]] if pl is not None else ""
+                if CA in ty or c.startswith(CA + "::"):
+                    sites.append((b, t))
+        if not sites:
+            continue
+        n += 1
+        cmps = []
+        for b in with_closures(F, f):
+            for bi, si, st in mir.stmts(b):
+                rv = st["rv"]
+                if rv["k"] == "binop" and rv["op"] in ("Lt", "Le", "Gt", "Ge", "Eq", "Ne"):
+                    tys = set()
+                    for o in (rv["a"], rv["b"]):
+                        pl = mir.op_place(o)
+                        c = mir.op_const(o)
+                        tys.add(b["locals"][pl["l"]] if pl is not None and not pl["p"] else (c or {}).get("ty", ""))
+                    # a comparison of two amounts (a sign test against a literal says nothing about another value)
+                    if ("i128" in tys or rv.get("ty") == "i128") and mir.op_const(rv["a"]) is None and mir.op_const(rv["b"]) is None:
+                        cmps.append(st["line"])
+            for bi, t in mir.calls(b):
+                c = t.get("callee") or ""
+                if c.split("::")[-1] in ("lt", "le", "gt", "ge", "eq", "ne") and ("PartialOrd" in c or "PartialEq" in c) and "i128" in " ".join(t.get("gargs") or []) \
+                        and all(mir.op_const(a) is None for a in t["args"]):
+                    cmps.append(t["line"])
+        if cmps:
+            bad.append((f, sites[0][1]["line"], cmps[0]))
+    key = "workspace|entry-wise comparisons of asset values live in model/assets.rs"
+    if bad:
+        f, l1, l2 = bad[0]
+        res.add([finding("C-HOME", "%s|walks the entries of an asset value and compares amounts" % f["path"], where(f, l1),
+                         "%s iterates a CanonicalAssets and compares the amounts itself (line %s) instead of using the order predicates of the asset module: the test is outside what C-ORDER decides, and a class missing from one side (an exactly cancelled one) is easily treated as unconstrained" % (f["path"].split("::")[-1], l2))])
+    else:
+        res.add([ok("C-HOME", key, "crates/tx3-tir/src/model/assets.rs", "%d function(s) outside the module walk the entries, none compares amounts" % n)])
+
+
 def run(ctx):
     F = ctx.F
     res = Result("C15")
@@ -543,6 +602,8 @@ def run(ctx):
     i_class(F, res)
     c_order(F, res)
     i_pointwise(F, res)
+    res.rule("C-HOME", "outside the asset module nobody walks the entries of an asset value to compare amounts")
+    order_home(F, res)
     if ctx.tier == "thorough":
         from ..common import run_witnesses
         passed, failed, tail = run_witnesses()
